@@ -148,6 +148,11 @@ def run(ctx):
         g_ivs = [x for x in ivs if "_" not in x[0]]
         g_strands = [s for x, s in zip(ivs, strands) if "_" not in x[0]]
         g_names = [n for n in names if "_" not in n]
+        def by_name():
+            # track[name] for every chromosome (and again for another genome with the same names later in the process)
+            pile = gi.get_pileup()
+            cmp_dense("array[chromosome-name]", {n: np.asarray(pile[n].to_array() if hasattr(pile[n], "to_array") else pile[n]) for n in names}, cov)
+        guard("array[chromosome-name]", by_name)
         guard("get_pileup", lambda: cmp_dense("get_pileup", gi.get_pileup().to_dict(), cov))
         guard("get_mask", lambda: cmp_dense("get_mask", gi.get_mask().to_dict(), lambda n: cov(n) > 0))
         if g_ivs:
@@ -329,6 +334,62 @@ def run(ctx):
         back = list(zip([names[i] for i in np.asarray(lt.chromosome.raw()).tolist()], np.asarray(lt.start).tolist(), np.asarray(lt.stop).tolist()))
         ctx.check("bijection", back == ivs, "global-offset/to_local(from_local)-intervals", "to_local_interval(from_local_interval(x)) != x: %r" % [(a, b) for a, b in zip(back, ivs) if a != b][:4],
                   {"sizes": sizes}, (tuple(sizes.items()), "iv-rt"))
+
+    # ---- genomes beyond 2**31 positions: sorting, locations, merging, clipping (interval arithmetic in Python ints, no dense arrays) ----------
+    def big_genome(case):
+        r = random.Random(case["seed"])
+        names = ["chr1", "chr2", "chr3", "chr4"]
+        sizes = {n: r.choice([900_000_000, 1_100_000_000, 2 ** 30 + 7]) for n in names}
+        genome = bnp.Genome.from_dict(sizes)
+        ivs = []
+        for _ in range(r.randint(2, 12)):
+            c = r.choice(names)
+            a = r.choice([0, r.randrange(0, sizes[c] - 10), sizes[c] - r.randint(2, 1000)])
+            ivs.append((c, a, min(sizes[c], a + r.choice([1, 5, 10 ** 6]))))
+        wit = {"sizes": sizes, "intervals": ivs, "seed": case["seed"]}
+        exp = sorted(ivs, key=lambda t: (names.index(t[0]), t[1], t[2]))
+        got = rows(genome.get_intervals(tbl(ivs)).sorted().get_data())
+        gi = genome.get_intervals(tbl(exp))          # merging, masks and pileups take intervals in genome order
+        ctx.check("sorted", got == exp, "sorted/genome-order:genome-beyond-2**31", "sorted() on a %.1f Gb genome gave %r, expected %r" % (sum(sizes.values()) / 1e9, got[:4], exp[:4]), dict(wit, got=got), ("bigg", case["seed"], "s"))
+        got = rows(gi.merged().get_data())
+        expm = [(n, a, b) for n in names for a, b in merge_model([(a, b) for c, a, b in ivs if c == n], 0)]
+        ctx.check("merged", got == expm, "merged/per-chromosome:genome-beyond-2**31", "merged() gave %r expected %r" % (got[:4], expm[:4]), dict(wit, got=got), ("bigg", case["seed"], "m"))
+        got = int(np.sum(gi.get_mask()))
+        expu = sum(b - a for _, a, b in expm)
+        ctx.check("get_mask", got == expu, "get_mask/covered-bases:genome-beyond-2**31", "mask covers %d bases, the union has %d" % (got, expu), dict(wit, got=got, expected=expu), ("bigg", case["seed"], "k"))
+        got = int(np.sum(gi.get_pileup()))
+        expt = sum(b - a for _, a, b in ivs)
+        ctx.check("get_pileup", got == expt, "get_pileup/total:genome-beyond-2**31", "pileup sums to %d, interval lengths to %d" % (got, expt), dict(wit, got=got, expected=expt), ("bigg", case["seed"], "p"))
+    # ---- binned counts of locations: every chromosome has its own bins; the last bin of a chromosome may be short -------------------
+    def binned(case):
+        from bionumpy.genomic_data.binned_genome import BinnedGenome
+        r = random.Random(case["seed"])
+        sizes = {n: v for n, v in gen_genome(r, maxsize).items() if "_" not in n} or {"chr1": r.randint(1, maxsize)}
+        names = list(sizes)
+        genome = bnp.Genome.from_dict(sizes)
+        bs = r.choice([1, 2, 3, 5, 10])
+        locs = []
+        for n in names:
+            for _ in range(r.randint(0, 4)):
+                locs.append((n, r.choice([0, sizes[n] - 1, r.randrange(sizes[n])])))
+        if not locs:
+            return
+        bg = BinnedGenome(genome.get_genome_context(), bs)
+        bg.count(LocationEntry([c for c, p in locs], np.array([p for c, p in locs], dtype=int)))
+        got = {n: np.asarray(v).tolist() for n, v in bg.count_dict.items()}
+        exp = {}
+        for n in names:
+            e = [0] * ((sizes[n] + bs - 1) // bs)
+            for c, p in locs:
+                if c == n:
+                    e[p // bs] += 1
+            exp[n] = e
+        ctx.check("binned-counts", got == exp, "BinnedGenome.count/per-chromosome", "binned counts (bin size %d) gave %r, per-chromosome model %r" % (bs, got, exp), {"sizes": sizes, "locations": locs, "bin_size": bs, "got": got, "expected": exp}, (tuple(sizes.items()), tuple(locs), bs))
+    for i in range(ctx.share(ctx.pick(400, 6000))):
+        ctx.run_case(binned, {"seed": rng.randrange(2 ** 40)})
+
+    for i in range(ctx.pick(2, 30)):
+        ctx.run_case(big_genome, {"seed": ctx.seed * 6007 + ctx.shard * 13 + i})
 
     for i in range(ctx.share(ctx.pick(1200, 20000))):
         ctx.run_case(one, {"seed": rng.randrange(2 ** 40)})
